@@ -2,7 +2,7 @@
    Directives used: those of ExtrOcamlBasic only (bool, option, unit, list, prod, sumbool,
    sumor as OCaml types; andb/orb inlined). nat, N, Z, positive stay the extracted inductives. *)
 Require Import ExtrOcamlBasic.
-From Larking Require Import Base.GoSem Base.Reader Base.Varint Spec.Frames Model.Codec Model.Timeout Base.Pct Base.B64 Model.Status.
+From Larking Require Import Base.GoSem Base.Reader Base.Varint Spec.Frames Model.Codec Model.Timeout Base.Pct Base.B64 Model.Status Model.Metadata.
 Extraction Language OCaml.
 Set Extraction KeepSingleton.
 Separate Extraction
@@ -11,4 +11,5 @@ Separate Extraction
   Codec.read_next Codec.recv_all Codec.write_next
   Timeout.decode_timeout Timeout.timeout_obs_ok
   Pct.pct_encode Pct.pct_decode B64.b64_encode B64.b64_decode
-  Status.http_status_code Status.ws_status_code Status.twirp_name Status.web_body_frames Status.frame Status.ws_reason.
+  Status.http_status_code Status.ws_status_code Status.twirp_name Status.web_body_frames Status.frame Status.ws_reason
+  Metadata.incoming Metadata.set_outgoing Metadata.out_vals Metadata.decode_any Metadata.is_reserved Metadata.is_framing Metadata.is_whitelisted Metadata.is_bin Metadata.lower Metadata.reserved_keys Metadata.framing_keys.
